@@ -33,12 +33,13 @@ def hexVal (c : Nat) : Nat :=
 
 /-- `do { n = ch - '0'; tmp = tmp * 10 + n; if (tmp > limit) goto enoent; }
      while ((ch = *src++) != '\0' && isdigit(ch));`   returns (tmp, ch, src) -/
-def decNum (limit : Nat) (tmp ch : Nat) (src : Bytes) : Option (Nat × Nat × Bytes) :=
-  let tmp' := tmp * 10 + (ch - 48)
-  if tmp' > limit then none
-  else match src with
-    | [] => some (tmp', 0, [])
-    | c :: r => if isDigit c then decNum limit tmp' c r else some (tmp', c, r)
+def decNum (limit : Nat) : Nat → Nat → Bytes → Option (Nat × Nat × Bytes)
+  | tmp, ch, [] =>
+    if tmp * 10 + (ch - 48) > limit then none else some (tmp * 10 + (ch - 48), 0, [])
+  | tmp, ch, c :: r =>
+    if tmp * 10 + (ch - 48) > limit then none
+    else if isDigit c then decNum limit (tmp * 10 + (ch - 48)) c r
+    else some (tmp * 10 + (ch - 48), c, r)
 
 /-- the dotted-decimal octet loop; returns (ch, src, size, bytes written); a failure carries the bytes
     already stored through `*dst++` (a failed IPv4 attempt of `ares_dns_pton(AF_UNSPEC)` leaves them in
